@@ -364,6 +364,14 @@ func stackageStructsEqual(x, y any) (tried bool, err error) {
 		}
 	}
 
+	if !tried {
+		// x is no usable Stack or Condition (e.g. a zero
+		// instance); if y is one, the two differ.
+		_, yc := conditionTypeAliasConverter(y)
+		_, ys := stackTypeAliasConverter(y)
+		tried = yc || ys
+	}
+
 	err = errorf("Cannot compare stackage instances, cannot convert")
 
 	return
